@@ -28,6 +28,7 @@ package cache
 
 import (
 	"bytes"
+	"errors"
 	"sync"
 	"time"
 
@@ -75,6 +76,9 @@ type (
 		expiredAt int64
 	}
 )
+
+// ErrInvalidStoreData the data from store is invalid
+var ErrInvalidStoreData = errors.New("data from store is invalid")
 
 func nowUnix() int64 {
 	return time.Now().Unix()
@@ -197,7 +201,32 @@ func (hc *httpCache) initFromStore() (err error) {
 	if err != nil {
 		return
 	}
-	return hc.FromBytes(data)
+	// 先恢复至临时的缓存对象，校验通过后再一次性赋值，
+	// 避免数据有误时只恢复了部分字段
+	tmp := &httpCache{}
+	err = tmp.FromBytes(data)
+	if err != nil {
+		return
+	}
+	// 只有hit与hit for pass的缓存会保存（且均有有效期，hit需有响应数据），
+	// 其它的均为非法数据
+	switch tmp.status {
+	case StatusHit:
+		if tmp.response == nil {
+			return ErrInvalidStoreData
+		}
+	case StatusHitForPass:
+	default:
+		return ErrInvalidStoreData
+	}
+	if tmp.expiredAt == 0 {
+		return ErrInvalidStoreData
+	}
+	hc.status = tmp.status
+	hc.response = tmp.response
+	hc.createdAt = tmp.createdAt
+	hc.expiredAt = tmp.expiredAt
+	return
 }
 
 // saveToStore save cache to store
